@@ -15,7 +15,8 @@
      - leaves: all ten integer types and BOOLEAN re-encode to the accepted
        content; Integer, Unsigned, OID, BIT STRING keep it verbatim.
      - records: for EVERY schema (tree of SEQUENCE/SET/explicitly tagged
-       records over INTEGER/BOOLEAN/NULL leaves, any legal tags, any nesting)
+       records over INTEGER/BOOLEAN/NULL/OBJECT IDENTIFIER leaves, any legal
+       tags, any nesting)
        whatever the schema's typed readers accept in DER mode - at any
        position, under any limit - is exactly the DER encoding of the value
        they return (C05_schema_sound_in_context); for a whole input the
@@ -28,7 +29,7 @@
        whatever is accepted is the DER encoding of the value returned
        (C05_optional_schema_sound_in_context, C05_optional_schema_der_canonical,
        C05_optional_schema_der_injective, C05_optional_schema_der_reencode).
-   PARTIAL: CHOICE fields and string/OID leaves are not in the schema
+   PARTIAL: CHOICE fields, BIT STRING and string leaves are not in the schema
    datatype (leaf theorems above); restricted strings and captured values by
    streams (c05.leaf, c05.lengths, records). *)
 Require Import BV.Model.Base BV.Model.SrcB BV.Model.Twos BV.Model.Int BV.Model.BitStr BV.Model.Oid.
